@@ -305,6 +305,10 @@ func runC20(c *gen.Ctx) error {
 	encs := []int32{1, 2, 3, 4, 5, 6}
 	ref := [][]byte{[]byte("hello, conformance! hello, conformance!"), {0, 1, 2, 3, 250, 251, 252, 253, 254, 255}, []byte(strings.Repeat("ab", 40))}
 
+	// (0) fresh construction + round trip under different GOMAXPROCS values, serially, before
+	//     anything runs in parallel (c20procs.go)
+	c20ProcsGen(c)
+
 	// (a) every history up to length 4 (thorough 5) over {valid, empty, corrupt, trunc, close, resetEmpty}
 	alphabet := func(pos int) []c20Step {
 		d := gen.Hex(append([]byte(fmt.Sprintf("m%d:", pos)), ref[pos%len(ref)]...))
